@@ -25,6 +25,10 @@ CLAIMS = {
   text="second sentence of the property (slot storage of globals never relocates after an address was taken, however many declarations follow): CompBinds.NewBind, Comp.NewBind (slot counter never exceeds IntBindMax, complex128 takes two slots), Interp.prepareEnv (never reallocates Env.Ints once IntAddressTaken, never raises the internal error, keeps all slots) and a call-site assertion in Interp.CompileAst (IntBindMax is refreshed before compiling) are verified for all inputs; lemma replRound composes them over one REPL round",
   note="trusted: go/ssa front end, SMT solvers; assumed: Comp.Compile reaches NewBind only through Comp.NewBind and leaves IntBindMax alone (paper step tying the contracts to lemma replRound). Not covered: first sentence (each evaluation sees earlier effects; results equal compiled Go) - whole-program",
   ref="DESIGN.md section 5 C14"),
+ "C34": dict(
+  text="first half of the property (basic types): every function literal that Universe.addBasicTypeMethodsCTI installs for method M of basic kind K (279 literals: Equal, Cmp, Less, Add, Sub, Mul, Quo, Rem, Neg, And, AndNot, Or, Xor, Not, Lsh, Rsh, Real, Imag, Index, Len, Slice x 17 kinds) is proved to return the Go operator / builtin of that name on the same operands, evaluated in K by Go's rules (wrap-around, IEEE, shift counts), for all operand values, and to have no effect; a literal without a clause, or a clause without a literal, fails",
+  note="trusted: go/ssa front end, SMT solvers, machine arithmetic as specified by Go; strings are an uninterpreted model (Index/Slice/Len compared through the same indexing function). Not covered: container methods through reflection (cti_method.go), method resolution in the compiler, signatures in go/types/cti_method.go",
+  ref="DESIGN.md section 0.1, section 5 C34"),
  "C37": dict(
   text="binarySearch, prefixSearch, removeCmd, Cmds.Lookup/Add/Del are verified against requires/ensures/loop-invariant contracts for all inputs (unbounded slices, arbitrary strings): unique prefix / exact name / ambiguity / no match exactly as stated, termination, no out-of-range access, frame conditions",
   note="trusted: string order/prefix axioms, assumed contract of sortCmdList (sort.Slice), errors.New, strings.Join, go/ssa front end, SMT solvers; Interp.Cmd fall-through and the text of the ambiguity message are not under contract",
